@@ -11,12 +11,12 @@ TECHNIQUE = ('runtime monitoring: before/after snapshot oracle (permutation of t
 RULE = ('pages with 0-14 regions with unique ids: grids, columns, mutually overlapping in both axes (forces the recursive fallback), identical boxes, zero-width / '
         'zero-height boxes, random polygons, nested; lines horizontal and slanted (non-zero de-skew); both sorters; FakeIntersectionParameter 0-0.5; '
         'ImageWidthDenominator 1-1500. non-trivial = at least 2 regions; distinct = hash of the page description and sorter parameters')
-ASSUMPTIONS = ['regions have unique ids and polygons of at least 3 points', 'the naive sorter is driven with eps >= 1 (DBSCAN rejects eps = 0)',
+ASSUMPTIONS = ['regions have unique ids; outlines have at least 3 points, except in the class line_outline (one region given by one or two points, only on pages without skew: on a skewed page the de-skew rotation builds a shapely polygon from every outline, which is impossible for fewer than three points - not a polygon in the sense of the quantifier)', 'the naive sorter is driven with eps >= 1 (DBSCAN rejects eps = 0)',
                'termination is decided as bounded progress: traced line events inside the sorter modules stay below STEP_BUDGET(n); a hang inside a binary dependency would show as the wall-clock watchdog (inconclusive)',
                'geometry tolerance: boundaries within 1e-6 px of each other (Hausdorff distance) and equal area (de-skew rotates there and back in float64); GEOS overlay operations are not used because they are unreliable for nearly coincident polygons']
 N = {'quick': 1500, 'thorough': 60000}
-CLASSES = ['grid', 'columns', 'overlap', 'identical', 'degenerate', 'poly', 'nested', 'empty_or_single', 'overlap_slanted', 'grid_slanted']
-REQUIRED = ['smart_runs', 'naive_runs', 'deskewed_pages', 'decouple_calls', 'regions_compared']
+CLASSES = ['grid', 'columns', 'overlap', 'identical', 'degenerate', 'poly', 'nested', 'empty_or_single', 'overlap_slanted', 'grid_slanted', 'line_outline']
+REQUIRED = ['line_ids:none', 'line_ids:repeated', 'pages_with_a_one_or_two_point_outline', 'smart_runs', 'naive_runs', 'deskewed_pages', 'decouple_calls', 'regions_compared']
 
 
 def STEP_BUDGET(n):
@@ -53,7 +53,7 @@ def gen(rng, i, ctx):
     n = int(rng.integers(0, 15))
     if cls == 'empty_or_single':
         n = int(rng.integers(0, 2))
-    slanted = cls.endswith('slanted') or rng.random() < 0.2
+    slanted = (cls.endswith('slanted') or rng.random() < 0.2) and cls != 'line_outline'
     regs = []
     for k in range(n):
         if cls.startswith('grid'):
@@ -85,11 +85,22 @@ def gen(rng, i, ctx):
             lines.append({'id': 'r%03d-l%d' % (k, l), 'baseline': [[x0 + 5, by], [x0 + w - 5, by + slope * w]],
                           'polygon': [[x0 + 5, by - 15], [x0 + w - 5, by - 15 + slope * w], [x0 + w - 5, by + 5 + slope * w], [x0 + 5, by + 5]]})
         regs.append({'id': 'r%03d' % k, 'polygon': poly, 'text': 'T%d' % k, 'lines': lines})
+    if cls == 'line_outline' and n >= 2:
+        # one region is a rule / a stray mark given by its two end points or by one point (valid PAGE XML Coords); no skew on these pages
+        k = int(rng.integers(0, n))
+        x, y = int(rng.integers(50, 1200)), int(rng.integers(50, 1800))
+        regs[k]['polygon'] = [[x, y], [x + int(rng.integers(0, 300)), y + int(rng.integers(0, 40))]] if rng.random() < 0.7 else [[x, y]]
+        regs[k]['lines'] = []
+    # drawn last: how the lines are identified - unique ids, no ids at all (lines imported from ALTO have none), or the same id for all lines of a region
+    scheme = str(rng.choice(['unique', 'unique', 'none', 'repeated']))
+    for r in regs:
+        for l in r['lines']:
+            l['id'] = l['id'] if scheme == 'unique' else (None if scheme == 'none' else 'line')
     order = list(range(n))
     rng.shuffle(order)
     regs = [regs[k] for k in order]
     return {'cls': cls, 'regions': regs, 'fake_intersection': float(rng.choice([0.0, 0.05, 0.1, 0.3, 0.5])),
-            'width_denominator': int(rng.choice([1, 2, 10, 100, 1500])), 'int_coords': bool(rng.random() < 0.3)}
+            'width_denominator': int(rng.choice([1, 2, 10, 100, 1500])), 'int_coords': bool(rng.random() < 0.3), 'line_ids': scheme}
 
 
 def describe(case):
@@ -104,7 +115,7 @@ def build(L, case):
         reg.transcription = r['text']
         for l in r['lines']:
             reg.lines.append(L.TextLine(id=l['id'], baseline=np.array(l['baseline'], dtype=np.float64), polygon=np.array(l['polygon'], dtype=np.float64),
-                                        heights=[15, 5], transcription='t ' + l['id']))
+                                        heights=[15, 5], transcription='t %s %d' % (l['id'], len(reg.lines))))
         pl.regions.append(reg)
     return pl
 
@@ -112,7 +123,7 @@ def build(L, case):
 def same_shape(a, b, line=False):
     from vf.genlib import same_polygon_shape
     a, b = np.asarray(a, dtype=np.float64), np.asarray(b, dtype=np.float64)
-    if line:
+    if line or len(a) < 3 or len(b) < 3:            # a baseline, or an outline of one or two points: the same points
         return a.shape == b.shape and np.abs(a - b).max() <= 1e-6
     return same_polygon_shape(a, b, 1e-6)
 
@@ -181,6 +192,9 @@ def check(case, mon, ctx):
             continue
         ids = [r.id for r in out.regions]
         mon.observe('order ' + name, ids)
+        mon.count('line_ids:' + case.get('line_ids', 'unique'))
+        if any(len(r['polygon']) < 3 for r in case['regions']):
+            mon.count('pages_with_a_one_or_two_point_outline')
         if sorted(ids) != sorted(before) or len(ids) != len(before):
             mon.violation('permutation-of-input-regions', dict(w, got=ids, expected=sorted(before)))
             continue
